@@ -183,6 +183,15 @@ def stop_scenarios(ctx, n, use_dask):
         if not (sc["um"] or sc["uv"] or sc["uw"]):
             sc["um"] = True
         cap = int(ctx.rng.integers(3, 9)) if i % 5 else int(ctx.rng.integers(0, 3))  # incl. the boundary limits 0, 1, 2
+        if ctx.rng.random() < 0.35 and np.asarray(sc["x"]).dtype.kind == "f":
+            # units in which the average log-likelihood is near 0 (densities around 1: features with a spread of a few tenths): the
+            # relative change divides by a number below 1 there
+            x64 = np.asarray(sc["x"], dtype=float)
+            L0 = avg_ll({k: np.asarray(sc[k], dtype=float) for k in ("w", "m", "v")}, x64)
+            if np.isfinite(L0):
+                s_ = float(np.exp((L0 - ctx.rng.uniform(-0.8, 0.3)) / x64.shape[1]))
+                sc["x"] = (x64 * s_).astype(np.asarray(sc["x"]).dtype)
+                sc["m"], sc["v"] = np.asarray(sc["m"], dtype=float) * s_, np.asarray(sc["v"], dtype=float) * s_ * s_
         x = sc["x"]
         xin = da.from_array(x, chunks=(gen.random_composition(ctx.rng, len(x)), x.shape[1])) if use_dask else x
         full, _ = run_fit(sc, xin, cap, None)
